@@ -1,17 +1,16 @@
 SPECIFICATION Spec
 CONSTANTS
-    Configs <- MCThoroughAll
-    MaxAge = 4
+    Configs <- MCRestoreObs
+    MaxAge = 3
     MaxDt = 2
     MaxBDt = 1
-    RestoreKeepsEpisodeStart = TRUE
+    RestoreKeepsEpisodeStart = FALSE
     LeaveOKStartsDuration = TRUE
-    BatchGaps = {0, 1}
+    BatchGaps = {1}
     MaxBatch = 2
 INVARIANTS
     TypeOK
     LevelRule
     EmitIff
     EventCarries
-    ImplRefinesRef
 CHECK_DEADLOCK FALSE
